@@ -31,14 +31,18 @@ def scenarios(quick):
               (slow1, 'SpecPrompt', 8 if quick else 100, 300),
               (T.balance2_watch(maxseq=3), 'SpecPrompt', 6 if quick else 80, 250),
               (T.balance2_multi(maxseq=3), 'Spec', 8 if quick else 100, 300),
-              (T.balance2_relay(maxseq=4), 'SpecPrompt', 6 if quick else 80, 300)],
+              (T.balance2_relay(maxseq=4), 'SpecPrompt', 6 if quick else 80, 300),
+              (T.with_exit(T.balance3(maxseq=4), 'W3', 1, 'clean', prop=(), obey=()), 'SpecPrompt', 6 if quick else 80, 350)],
         rand=[(T.balance2(maxseq=6), 8 if quick else 150, 1200, 0.03),
               (slow1b, 8 if quick else 150, 1500, 0.03),
               (T.balance3(maxseq=6), 8 if quick else 150, 1800, 0.03),
               (T.balance2_watch(maxseq=5), 6 if quick else 100, 1200, 0.05),
               (T.balance2_multi(maxseq=6), 12 if quick else 200, 1500, 0.08),
               # the rejoin is a relay that does not forward every frame (recv() alternates between a state and None)
-              (T.balance2_relay(maxseq=8), 12 if quick else 200, 1500, 0.03)],
+              (T.balance2_relay(maxseq=8), 12 if quick else 200, 1500, 0.03),
+              # a worker ends cleanly in the middle of the stream (CLOSE reaches the rejoin while siblings' frames are pending)
+              (T.with_exit(T.balance3(maxseq=8), 'W3', 2, 'clean', prop=(), obey=()), 12 if quick else 200, 2000, 0.03),
+              (T.with_exit(T.balance3(maxseq=8), 'W1', 3, 'clean', prop=(), obey=()), 8 if quick else 150, 2000, 0.03)],
     )
 
 
